@@ -710,8 +710,15 @@ pub fn refresh(
     let new_rights = if keep_old_rights {
         refresh_coordinate_keys(msk, usk_rights)
     } else {
-        msk.get_latest_right_sk(usk_rights.into_keys())
-            .collect::<Result<RevisionVec<Right, RightSecretKey>, Error>>()?
+        // Rights that do not belong to the MSK anymore are removed.
+        usk_rights
+            .into_keys()
+            .filter_map(|r| {
+                msk.secrets
+                    .get_latest(&r)
+                    .map(|(_, secret)| (r, secret.clone()))
+            })
+            .collect::<RevisionVec<Right, RightSecretKey>>()
     };
 
     let signature = sign(msk, &new_id, &new_rights)?;
